@@ -1094,6 +1094,28 @@ class Interp:
             if forms is not None and all(isinstance(f, F) and f.is_const for f in forms):
                 v = int("".join(str(f.c) for f in forms) or "0", 2)
             else:
+                if via_map is None and getattr(self, "explore_undefined_enums", False) and forms is not None and 0 < len(forms) <= 10 \
+                        and self.repo.find_method(ci, "_missing_") is not None:
+                    # a _missing_ that refuses SOME values of the field (falls off its last range, returns None): each such value is
+                    # a raising path of its own, decided as an equality; found by constant evaluation over the field's width
+                    ck_ = ("enum-refused", ci.qualname, len(forms))
+                    bad_vals = self.repo._cache.get(ck_)
+                    if bad_vals is None:
+                        bad_vals = []
+                        for val_ in range(1 << len(forms)):
+                            try:
+                                self.enum_lookup(ci, val_)
+                            except PathRaise:
+                                bad_vals.append(val_)
+                            except (Abort, NeedCases):
+                                bad_vals = []
+                                break
+                        if len(bad_vals) > 16:
+                            bad_vals = []          # an enumeration that refuses most values is the "explore the ValueError exit" case below
+                        self.repo._cache[ck_] = bad_vals
+                    for val_ in bad_vals:
+                        if self.decide_eq(forms, val_, f"{ci.name} refuses {val_}"):
+                            raise PathRaise("ValueError", f"{val_} is not a valid {ci.name}")
                 if via_map is None and getattr(self, "exact_enum_folding", False) and forms is not None and self.repo.find_method(ci, "_missing_") is not None:
                     # reserved-folding enum over a few bit atoms: the exact finite function value -> member
                     acc = set()
